@@ -38,6 +38,8 @@ func VerifH_ScanProjectTotal() {
 	m := verifrt.Choice("m", verifrt.Bound("M")+1)
 	verifFileBytes = verifrt.Bytes("inc", m)
 	verifStatCalls, verifReadCalls = nil, nil
+	verifFSInit()
+	verifFSTarget("a", verifFileBytes)
 	core := NewJApiCore(fs.NewFile(verifDir+"/root.jst", data))
 	je := core.scanProject()
 	if je != nil {
